@@ -321,7 +321,30 @@ func rulesFrom(m trafficControllerMap) []*Rule {
 	return rules
 }
 
-func calculateReuseIndexFor(r *Rule, oldResTcs []TrafficShapingController) (equalIdx, reuseStatIdx int) {
+// reservedForLaterRule reports whether the old controller at idx must be kept for a rule that is
+// equal to its rule and comes later in the new list. Equal rules claim the first equal old controllers,
+// so the controller at idx is spare only if enough equal controllers follow it.
+func reservedForLaterRule(idx int, oldResTcs []TrafficShapingController, laterRules []*Rule) bool {
+	oldRule := oldResTcs[idx].BoundRule()
+	need := 0
+	for _, lr := range laterRules {
+		if oldRule.Equals(lr) {
+			need++
+		}
+	}
+	if need == 0 {
+		return false
+	}
+	after := 0
+	for _, tc := range oldResTcs[idx+1:] {
+		if tc.BoundRule().Equals(oldRule) {
+			after++
+		}
+	}
+	return after < need
+}
+
+func calculateReuseIndexFor(r *Rule, oldResTcs []TrafficShapingController, laterRules []*Rule) (equalIdx, reuseStatIdx int) {
 	// the index of equivalent rule in old traffic shaping controller slice
 	equalIdx = -1
 	// the index of statistic reusable rule in old traffic shaping controller slice
@@ -342,6 +365,10 @@ func calculateReuseIndexFor(r *Rule, oldResTcs []TrafficShapingController) (equa
 			// had find reuse rule.
 			continue
 		}
+		if reservedForLaterRule(idx, oldResTcs, laterRules) {
+			// an unchanged rule later in the list keeps this controller (statistics included)
+			continue
+		}
 		reuseStatIdx = idx
 	}
 	return equalIdx, reuseStatIdx
@@ -350,13 +377,13 @@ func calculateReuseIndexFor(r *Rule, oldResTcs []TrafficShapingController) (equa
 // buildResourceTrafficShapingController builds TrafficShapingController slice from rules. the resource of rules must be equals to res.
 func buildResourceTrafficShapingController(res string, resRules []*Rule, oldResTcs []TrafficShapingController) []TrafficShapingController {
 	newTcsOfRes := make([]TrafficShapingController, 0, len(resRules))
-	for _, rule := range resRules {
+	for i, rule := range resRules {
 		if res != rule.Resource {
 			logging.Error(errors.Errorf("unmatched resource name, expect: %s, actual: %s", res, rule.Resource), "Unmatched resource name in hotspot.buildResourceTrafficShapingController()", "rule", rule)
 			continue
 		}
 
-		equalIdx, reuseStatIdx := calculateReuseIndexFor(rule, oldResTcs)
+		equalIdx, reuseStatIdx := calculateReuseIndexFor(rule, oldResTcs, resRules[i+1:])
 		// there is equivalent rule in old traffic shaping controller slice
 		if equalIdx >= 0 {
 			equalOldTC := oldResTcs[equalIdx]
